@@ -318,6 +318,9 @@ class Interp:
             base.fields[attr] = value
             self.writes_log.append((base, attr))
             return
+        if getattr(base, "_zplain", False):
+            setattr(base, attr, value)
+            return
         raise OutsideSubset(f"attribute store on {type(base).__name__}")
 
     # ---------------------------------------------------------------------------------------------
